@@ -2085,6 +2085,14 @@ def find_cache_meta(
         # Check if plugins are still the same.
         if manager.plugins_snapshot != manager.old_plugins_snapshot:
             manager.log(f"Metadata abandoned for {id}: plugins differ")
+            # Nothing in a meta file says which plugins produced it; only the plugins snapshot,
+            # which is replaced at the end of this build, vouches for it. Remove the record
+            # now: otherwise it would be trusted again by the next run whenever this run does
+            # not manage to replace it (for example because writing the new cache fails).
+            try:
+                manager.metastore.remove(meta_file)
+            except OSError:
+                pass
             return None
     plugin_data = manager.plugin.report_config_data(ReportConfigContext(id, path, is_check=True))
     if not manager.options.fixed_format_cache:
